@@ -30,7 +30,7 @@ DEFAULT_EXCLUDED_NAMES = [
 DEFAULT_EXCLUDE_PATTERNS = [n + "/" for n in DEFAULT_EXCLUDED_NAMES] + ["*.egg-info/"]
 
 ORDINARY_DIRS = ["docs", "src", "sub", "guide", "notes", "a b", "drafts", "archive", "x", "dé"]
-EXCL_DIRS = ["node_modules", "build", ".git", "pkg.egg-info", "venv", "dist", "vendor", "__pycache__", "target"]
+EXCL_DIRS = DEFAULT_EXCLUDED_NAMES + ["pkg.egg-info", "x.egg-info", "node_modules", "build", ".git"]  # every default, common ones weighted
 FILE_STEMS = ["a", "b", "README", "notes", "index", "x y", "ü", "draft", "CHANGELOG", "[v1]", "q?", "star*", ".hidden", "big"]
 EXTS = [".md", ".md", ".md", ".md", ".mdx", ".txt", ".markdown", ".MD", ""]
 
@@ -43,10 +43,13 @@ def parse_rule(line: str) -> dict[str, Any] | None:
     s = line.strip()
     if not s or s.startswith("#"):
         return None
+    neg = s.startswith("!")
+    if neg:
+        s = s[1:]
     dir_only = s.endswith("/")
     core = s.rstrip("/")
     anchored = "/" in core
-    return {"raw": s, "dir_only": dir_only, "anchored": anchored, "pat": core.lstrip("/")}
+    return {"raw": ("!" if neg else "") + s, "dir_only": dir_only, "anchored": anchored, "pat": core.lstrip("/"), "neg": neg}
 
 
 def rule_matches(rule: dict[str, Any], rel_from_rule_dir: str, is_dir: bool) -> bool:
@@ -68,9 +71,13 @@ def any_component_matches(rules: list[dict[str, Any]], rel: str, is_dir_last: bo
     for i in range(from_depth, len(parts)):
         sub = "/".join(parts[: i + 1])
         is_dir = True if i < len(parts) - 1 else is_dir_last
+        # last matching rule wins; "!rule" re-includes; an ignored directory cannot be re-entered
+        last = None
         for r in rules:
             if rule_matches(r, sub, is_dir):
-                return r
+                last = r
+        if last is not None and not last.get("neg"):
+            return last
     return None
 
 
@@ -162,6 +169,10 @@ def gen_tree(rng: random.Random) -> dict[str, Any]:
         if rng.random() < 0.3 and len(dirs) > 1:
             d = rng.choice(dirs[1:])[len("t/") :]
             rules.append(d + "/" if "/" in d else "/" + d + "/")
+        if rng.random() < 0.2:
+            # (file-name negations only: re-including a *directory* below which other rules apply is
+            # where pathspec and git disagree - that is C18's business, not C17's)
+            rules += rng.choice([["*.md", "!README.md"], ["README*", "!README.md"], ["a.*", "!a.md"], ["notes.md", "!notes.md", "notes.md"]])
         where = rng.choices(["t", "", "sub"], [70, 15, 15])[0]
         if where == "t":
             entries["t/.flowmarkignore"] = {"txt": "\n".join(rules) + "\n"}
@@ -188,8 +199,9 @@ def gen_tree(rng: random.Random) -> dict[str, Any]:
 def gen_settings(rng: random.Random, limit: int) -> dict[str, Any]:
     s: dict[str, Any] = {
         "extend_include": rng.choice([[], [], ["*.mdx"], ["*.txt"], ["notes*"], ["*.mdx", "*.markdown"]]),
-        "exclude": rng.choice([None, None, None, [], ["drafts/"], ["docs/", "x/"]]),
-        "extend_exclude": rng.choice([[], [], ["drafts/"], ["archive/", "sub/"], ["a*/"], ["guide/"]]),
+        "exclude": rng.choice([None, None, None, None, [], ["drafts/"], ["docs/", "x/"], ["vendor/", "dist/", "!vendor/"]]),
+        # (a "!pattern" re-includes what an earlier pattern - also a default one - excluded)
+        "extend_exclude": rng.choice([[], [], [], ["drafts/"], ["archive/", "sub/"], ["a*/"], ["guide/"], ["!build/"], ["!node_modules/", "!.git/"], ["drafts/", "!drafts/"], ["sub/", "!s*/"]]),
         "respect_gitignore": rng.random() < 0.7,
         "force_exclude": rng.random() < 0.3,
         "files_max_size": limit,
@@ -265,6 +277,14 @@ class Ref:
 
     # -- primitives ---------------------------------------------------------------------
 
+    def dir_excluded(self, name: str) -> bool:
+        """exclude + extend_exclude form one gitignore-style list: the last matching pattern wins."""
+        last = None
+        for r in self.exclude_rules:
+            if rule_matches(r, name, True):
+                last = r
+        return last is not None and not last.get("neg")
+
     def included(self, name: str) -> bool:
         return any(fnmatch.fnmatchcase(name, p) for p in self.include)
 
@@ -330,9 +350,8 @@ class Ref:
         may_reason = None
         # excluded directories between base and the file
         for i, comp in enumerate(dparts):
-            for r in self.exclude_rules:
-                if rule_matches(r, comp, True):
-                    return "NO", "excluded-dir"
+            if self.dir_excluded(comp):
+                return "NO", "excluded-dir"
         # the closest tool ignore file at or above base
         ci = self.closest_toolignore(base)
         if ci is not None:
@@ -433,15 +452,10 @@ class Ref:
             if ".." in parts:
                 cls, reason = "MAY", "force-exclude with .. in the path"
             else:
-                for r in self.exclude_rules:
-                    if rule_matches(r, name, False):
-                        put(full, "NO", "force-exclude-excluded-name", "explicit")
-                        return
                 for comp in parts[:-1]:
-                    for r in self.exclude_rules:
-                        if rule_matches(r, comp, True):
-                            put(full, "NO", "force-exclude-excluded-dir", "explicit")
-                            return
+                    if self.dir_excluded(comp):
+                        put(full, "NO", "force-exclude-excluded-dir", "explicit")
+                        return
                 ci = self.closest_toolignore(os.path.dirname(full))
                 if ci is not None:
                     idir, rules = ci
